@@ -1,6 +1,7 @@
 package checks
 
 import (
+	"fmt"
 	"time"
 
 	"verif/h"
@@ -20,6 +21,7 @@ var c11Goals = []string{"t(X, Y, Z)", "(t(X, Y, Z) ; t(X, Z, Y))", "(t(X, Y, Z),
 var c11Instances = []string{"S", "[]", "[_|_]", "[E]", "[E1, E2|T]"}
 
 func c11Work(w *h.W) {
+	c11Repr(w)
 	nv := len(c11Vals)
 	maxFacts := w.Pick(2, 3)
 	type fact struct{ y, z int }
@@ -107,6 +109,41 @@ func c11Work(w *h.W) {
 	}
 }
 
+// (b) one witness in several internal representations: the same list as a literal, as a double-quoted
+// string, as the output of atom_chars/2, atom_codes/2, append/3, findall/3 - in every order of the facts.
+func c11Repr(w *h.W) {
+	reprs := []string{
+		"Y = [a, b, c]", "Y = \"abc\"", "atom_chars(abc, Y)", "append([a], [b, c], Y)", "findall(E, member(E, [a, b, c]), Y)", "Y = [a|T], T = \"bc\"",
+		"Y = [a, b, d]", "Y = \"abd\"", "Y = f(\"abc\")", "Y = f([a, b, c])", "atom_codes(abc, Y)", "Y = [97, 98, 99]", "Y = []", "Y = \"\"", "Y = [z|\"ab\"]", "Y = [z, a, b]",
+	}
+	n := len(reprs)
+	maxFacts := w.Pick(3, 4)
+	for k := 2; k <= maxFacts; k++ {
+		seqs(k, n, func(idx []int) bool {
+			if !w.Mine() {
+				return true
+			}
+			if w.Expired() {
+				return false
+			}
+			cls := []T{}
+			for i, r := range idx {
+				vars := map[string]*ref.Var{}
+				cls = append(cls, rule(rdv(fmt.Sprintf("t(%d, Y)", i+1), vars), rdv(reprs[r], vars)))
+			}
+			pc := &h.ProgCase{DQ: "chars", Budget: 4000, Steps: []h.ProgStep{h.Consult(cls...)}}
+			for _, q := range []string{"bagof(X, t(X, Y), L)", "setof(X, t(X, Y), L)", "bagof(X-Y, t(X, Y), L)", "setof(Y, X^t(X, Y), L)", "findall(X-Y, t(X, Y), L)",
+				"bagof(X, (t(X, Y), Z = Y), L)", "bagof(X, W^(t(X, W), Y = g(W, W)), L)"} {
+				st := h.Query(rd(q), 12)
+				st.Multiset = true
+				pc.Steps = append(pc.Steps, st)
+			}
+			runProgCase(w, "allsol-repr", pc, k)
+			return true
+		})
+	}
+}
+
 func sprintf(f, a string) string {
 	out := ""
 	for i := 0; i < len(f); i++ {
@@ -125,7 +162,7 @@ var _ = ref.Nil
 func init() {
 	h.Register(&h.Check{
 		ID: "C11",
-		Rule: "all fact bases t(Index, Y, Z) of <= N facts whose witness arguments range over {a, b, A, B, f(A)} (clause-local variables: ground, partially bound, variant and non-variant witnesses, duplicates) x {findall, bagof, setof} x 5 templates x 3 goal shapes (plain, disjunctive, filtered) x every ^-quantification of {Y, Z} (incl. nested and compound) x 5 instance arguments (unbound, [], partial lists) + 12 nested / pre-bound / aliased-quantifier queries. Non-trivial = the reference yields an answer or error; distinct = program + query text.",
+		Rule: "all fact bases t(Index, Y, Z) of <= N facts whose witness arguments range over {a, b, A, B, f(A)} (clause-local variables: ground, partially bound, variant and non-variant witnesses, duplicates) x {findall, bagof, setof} x 5 templates x 3 goal shapes (plain, disjunctive, filtered) x every ^-quantification of {Y, Z} (incl. nested and compound) x 5 instance arguments (unbound, [], partial lists) + 12 nested / pre-bound / aliased-quantifier queries; (b) representations: all sequences of 2..3 (4) facts whose witness is one of 16 constructions of the same and of neighbouring lists (literal, double-quoted string, atom_chars/atom_codes output, append/findall output, string tail, nested in a compound) x 7 bagof/setof/findall queries. Non-trivial = the reference yields an answer or error; distinct = program + query text.",
 		Explanation: "state = one fact base in a fresh real interpreter; transition = one all-solutions query run to exhaustion; findall answers compared as sequences, bagof/setof answers (one per witness class) as a multiset since group order is unconstrained; the reference implements ISO 8.10 literally (free variables per 7.1.1.4, variant classes, witness unification, sort + dedupe for setof)",
 		Assumptions: []string{"reference ISO 8.10 algorithm in ref/solve (self-checked against the ISO examples)", "cases where a setof/3 result depends on the order of two distinct unbound variables are inconclusive"},
 		Work:        c11Work,
